@@ -335,8 +335,23 @@ def run(prop, tier, replay=None):
         if e["ev"] == "Reset":
             run_of[e["run"]] = by_run[e["scn"]]
     malformed = [x for x in rep["violations"] if x["clause"] == "Malformed"]
+
+    def foreign_ops(e):
+        """A replica holds an operation the driver cannot identify (op id 0): every operation a replica of this run may hold was
+        made by the driver for the run's registers, so an unknown one entered from ANOTHER register (e.g. through a merge that
+        should have been refused as DifferentBaseRegister)."""
+        obs = [e.get("obs"), e.get("x"), e.get("y")] + (e.get("obs") if isinstance(e.get("obs"), list) else [])
+        return any(isinstance(o, dict) and 0 in (o.get("ops") or []) + (o.get("read") or []) for o in obs)
+    hard = [x for x in malformed if not foreign_ops(events[x["line"] - 1])]
+    if hard:
+        raise ToolError("malformed trace event at line %d: %s" % (hard[0]["line"], json.dumps(events[hard[0]["line"] - 1])[:600]))
     if malformed:
-        raise ToolError("malformed trace event at line %d: %s" % (malformed[0]["line"], json.dumps(events[malformed[0]["line"] - 1])[:600]))
+        x = malformed[0]
+        e = events[x["line"] - 1]
+        v.violation("C06_AuthorisedAdd", "a replica holds operations that were never made for its register (they entered from a register of another "
+                    "address: 'operations ... against a different base register are rejected') at %s, %d such events" % (describe(e), len(malformed)),
+                    {"area": "register", "scenario": run_of[e["run"]], "event": {k: e[k] for k in e if k not in ("x", "y", "obs", "crdt")}})
+        rep["violations"] = [y for y in rep["violations"] if y["clause"] != "Malformed"]
     reported = set()
     listed = {k["id"]: k for k in kf_for(prop)}
     for x in rep["violations"]:
